@@ -160,6 +160,9 @@ func c10History(cc *run.Case, kind string, nops, hidx int) bool {
 			ptrs := make([]*asset.Snapshot, nb)
 			op := repoOp{Op: "append", Name: name}
 			d := lastDay[name]
+			if kind != "sql" && r.Intn(6) == 0 {
+				d = max(0, d-r.Range(3, 12)) // a back-fill: this batch is dated before snapshots appended earlier
+			}
 			for i := range batch {
 				d += r.Pick(0, 1, 1, 1, 2, 5) // equal consecutive dates included
 				batch[i] = asset.Snapshot{Date: day0.AddDate(0, 0, d), Open: randValue(r), High: randValue(r), Low: randValue(r), Close: randValue(r), Volume: randValue(r)}
@@ -169,7 +172,7 @@ func c10History(cc *run.Case, kind string, nops, hidx int) bool {
 			}
 			lastDay[name] = d
 			hist = append(hist, op)
-			if err := repo.Append(name, helper.SliceToChan(ptrs)); err != nil {
+			if err := repo.Append(name, feedChan(r, ptrs)); err != nil {
 				return fail(fmt.Sprintf("Append(%s, %d snapshots) returned an error: %v", name, nb, err))
 			}
 			model.append(name, batch)
@@ -284,6 +287,32 @@ func c10History(cc *run.Case, kind string, nops, hidx int) bool {
 		cc.Sample(map[string]any{"repository": kind, "history": hist})
 	}
 	return true
+}
+
+// feedChan delivers a batch through an unbuffered channel, a partly
+// buffered one, or a buffered channel that already holds the whole batch when
+// the call is made.
+func feedChan[T any](r *gen.Rand, items []T) <-chan T {
+	switch r.Intn(3) {
+	case 0:
+		return helper.SliceToChan(items)
+	case 1:
+		c := make(chan T, len(items)+r.Range(0, 3))
+		for _, it := range items {
+			c <- it
+		}
+		close(c)
+		return c
+	default:
+		c := make(chan T, r.Range(1, 3))
+		go func() {
+			for _, it := range items {
+				c <- it
+			}
+			close(c)
+		}()
+		return c
+	}
 }
 
 // reflectBase returns the base directory of a FileSystemRepository.
